@@ -20,6 +20,16 @@ def gen_unit(rng):
             r["subs"] = [{"g": rng.choice(records.GROUP_UNIVERSE[:6]), "n": i} for i in range(rng.choice((0, 1, 2, 3)))]
     args = []
     up = []
+    r = rng.random()
+    if r < 0.12:
+        args += ["--set", "one=1"]
+        up.append("set-var")
+    elif r < 0.2:
+        args += ["--set", "@m=(len .)", "--set", "two=2"]
+        up.append("set-macro")
+    if rng.random() < 0.1:
+        args += ["--only-objects-and-arrays"]
+        up.append("only_oa")
     if rng.random() < 0.25:
         args += ["--split-by", rng.choice([".subs", ".arr"])]
         up.append("split")
